@@ -1,20 +1,27 @@
 ----------------------------- MODULE InlineCache -----------------------------
 (***************************************************************************)
-(* Implementation-shaped model of boa's inline caches on top of the        *)
-(* reference semantics of Shapes.tla.                                      *)
+(* Implementation-shaped model of boa's objects, shapes and inline caches, *)
+(* next to the reference semantics of Shapes.tla.                          *)
 (*                                                                         *)
-(* What is reproduced from /repo/core/engine/src:                          *)
-(*  - shape identity (object/shape/): a shared shape is identified by    *)
-(*    its transition path from the root (forward transitions are memoised  *)
-(*    per (key, attributes) / prototype, so equal paths are the same       *)
-(*    shape); delete and width-changing reconfiguration roll back to the   *)
-(*    shape before the key's insertion and re-insert the later keys        *)
-(*    (shared_shape/mod.rs rollback_before, including that a configure     *)
-(*    shape reports the *last* property of its table); a unique shape      *)
+(* Three object graphs evolve side by side under the same operations:      *)
+(*   objs    the REFERENCE graph (ECMA-262 ordinary object semantics);     *)
+(*   ust.O   what boa holds when every access takes the uncached path;     *)
+(*   cst.O   what boa holds with inline caches on.                         *)
+(* The property C06 is: the three observable traces are equal.             *)
+(*                                                                         *)
+(* Reproduced from /repo/core/engine/src:                                  *)
+(*  - shape identity (object/shape/): a shared shape is identified by its  *)
+(*    transition path from the root (forward transitions are memoised per  *)
+(*    (key, attributes) / prototype, so equal paths are the same shape);   *)
+(*    delete and width-changing reconfiguration roll back to the shape     *)
+(*    before the key's insertion and re-insert the later keys              *)
+(*    (shared_shape/mod.rs rollback_before - including that a configure    *)
+(*    shape reports the LAST property of its table, not the configured     *)
+(*    one); the attributes of a property live in the shape; a unique shape *)
 (*    (builtins such as Math, the global object) is mutated in place on    *)
 (*    insert and on same-width attribute change and replaced on delete,    *)
 (*    width change and prototype change (unique_shape.rs);                 *)
-(*  - storage layout (property_map.rs): values in property order, an       *)
+(*  - storage layout (property_map.rs): cells in property order, an        *)
 (*    accessor occupies two cells (get, set);                              *)
 (*  - an access site (vm/inline_cache/mod.rs): up to 4 entries             *)
 (*    shape -> slot(index, PROTOTYPE flag, accessor flag), megamorphic     *)
@@ -24,33 +31,40 @@
 (*    what the hit paths do (vm/opcode/get/property.rs, set/property.rs,   *)
 (*    get/name.rs).                                                        *)
 (*                                                                         *)
-(* objs always evolves by the REFERENCE semantics (that is what the        *)
-(* property demands of every access); Transparent states that whatever a   *)
-(* hit path would do in the current state is exactly that.  With           *)
-(* FixUnique = FixProto = FALSE (the pinned tree) TLC refutes Transparent; *)
-(* with both TRUE (the proposed repairs) it holds within the bounds.       *)
+(* Design flaws of the pinned tree, each with a switch that models its     *)
+(* repair (all FALSE = the pinned tree, all TRUE = repaired design):       *)
+(*  F1 FixProto     a PROTOTYPE entry is validated by the receiver's shape *)
+(*                  only; any layout change of the prototype makes it      *)
+(*                  stale (wrong value, function object, out of bounds)    *)
+(*  F2 FixUnique    a unique shape keeps its identity on insert and on     *)
+(*                  same-width attribute change                            *)
+(*  F3 FixSetter    a cached store through an accessor whose setter is     *)
+(*                  undefined succeeds silently                            *)
+(*  F4 FixRollback  rollback_before forgets attribute changes of           *)
+(*                  properties other than the last (not a cache flaw:      *)
+(*                  cached and uncached agree, both differ from ECMA-262)  *)
+(* TLC refutes Transparent / ShapeDenotes with the switches off and        *)
+(* verifies them (and Refines) with the switches on.                       *)
 (***************************************************************************)
 EXTENDS Shapes, TLC
 
 CONSTANTS N,          \* objects 1..N
           Keys,       \* property keys
-          FixUnique,  \* repair 1: a unique shape gets a new identity on every insert / attribute change
-          FixProto,   \* repair 2: a PROTOTYPE entry also records and re-validates the prototype's shape
-          FixSetter,  \* repair 4: a cached store through an accessor without a setter fails (TypeError when strict)
-          FixRollback \* repair 3: delete / width change keep the attribute changes of the other properties
+          FixUnique, FixProto, FixSetter, FixRollback
 
 VARIABLES objs,   \* reference object graph
           uq,     \* uq[o]: object o has a unique shape (constant during a behaviour)
-          shp,    \* shp[o]: shape identity token of object o
-          nextU,  \* next unique-shape identity
-          sites,  \* access sites
-          log     \* history: operations with the reference observation and the predicted cache behaviour
+          glob,   \* object id played by the global object (0 = none); constant during a behaviour
+          cst,    \* boa with caches:    [O, shp, nextU, sites, dead]
+          ust,    \* boa without caches: [O, shp, nextU, sites (unused), dead (unused)]
+          log     \* history: operation, reference observation e, predicted observations ce / ue, hit, flaw tag
 
-vars == <<objs, uq, shp, nextU, sites, log>>
+vars == <<objs, uq, glob, cst, ust, log>>
 
 Objs == 1..N
-SiteIds == {"G", "S"} \X Keys          \* one get site and one set site per key
+SiteIds == {"G", "S", "N"} \X Keys     \* per key: property get site, property set site, global-name get site
 PicCapacity == 4
+FnMark == 9999                         \* a function object read as a value
 
 -----------------------------------------------------------------------------
 (* shape identity *)
@@ -96,7 +110,7 @@ Rebuild(path, k, first) ==   \* first = <<>> for delete, <<Ins(k, a)>> for a wid
       cur == TableAt(path)
       CurAtt(key) == cur[CHOOSE x \in 1..Len(cur) : cur[x].k = key].a
       bt == TableAt(rb.base)
-      \* repair 3: attribute changes of earlier properties that happened after the insertion of k
+      \* repair F4: attribute changes of earlier properties that happened after the insertion of k
       stale == SelectSeq(bt, LAMBDA e : e.a # CurAtt(e.k))
       fixed == IF FixRollback THEN rb.base \o [i \in 1..Len(stale) |-> Cfg(stale[i].k, CurAtt(stale[i].k))]
                ELSE rb.base
@@ -133,18 +147,26 @@ SharedSteps(path, chs) == IF chs = <<>> THEN path ELSE SharedSteps(SharedStep(pa
 UniqueRenews(chs) ==
   \E i \in 1..Len(chs) : chs[i].t \in {"p", "d", "w"} \/ (FixUnique /\ chs[i].t \in {"i", "c"})
 
-\* new shape token of object o and new counter after objs changes to O2
-ShapeAfter(o, O2) ==
-  LET chs == ChangesOf(objs[o], O2[o])
-  IN IF uq[o] THEN (IF UniqueRenews(chs) THEN UniqueShape(nextU) ELSE shp[o])
-     ELSE SharedShape(SharedSteps(shp[o].path, chs))
+\* the attributes of the properties of a shared-shape object are those of its shape's table
+Retab(obj, tab) ==
+  [obj EXCEPT !.props = [i \in 1..Len(obj.props) |->
+      LET a == tab[CHOOSE x \in 1..Len(tab) : tab[x].k = obj.props[i].k].a
+      IN [obj.props[i] EXCEPT !.w = a.w, !.c = a.c]]]
 
-Renewed(o, O2) == uq[o] /\ UniqueRenews(ChangesOf(objs[o], O2[o]))
+\* boa's state after an ordinary (uncached) operation turned the graph st.O into O2: new shape identities,
+\* and for shared shapes the attributes the new shape denotes (equal to O2's unless flaw F4 strikes)
+Reshape(st, O2) ==
+  LET changed == {o \in Objs : O2[o] # st.O[o]}
+      chs(o) == ChangesOf(st.O[o], O2[o])
+      renew == {o \in changed : uq[o] /\ UniqueRenews(chs(o))}
+      newShp == [o \in Objs |->
+                   IF o \notin changed THEN st.shp[o]
+                   ELSE IF uq[o] THEN (IF o \in renew THEN UniqueShape(st.nextU) ELSE st.shp[o])
+                   ELSE SharedShape(SharedSteps(st.shp[o].path, chs(o)))]
+      O3 == [o \in Objs |-> IF o \in changed /\ ~uq[o] THEN Retab(O2[o], TableAt(newShp[o].path)) ELSE O2[o]]
+  IN [st EXCEPT !.O = O3, !.shp = newShp, !.nextU = @ + Cardinality(renew)]
 
-\* an operation changes at most one object's layout (the receiver of a set, the target of a mutation)
-UpdateShapes(O2) ==
-  /\ shp' = [o \in Objs |-> IF O2[o] = objs[o] THEN shp[o] ELSE ShapeAfter(o, O2)]
-  /\ nextU' = nextU + Cardinality({o \in Objs : O2[o] # objs[o] /\ Renewed(o, O2)})
+LosesAttrs(st, O2) == Reshape(st, O2).O # O2          \* flaw F4 strikes in this step
 
 -----------------------------------------------------------------------------
 (* storage layout *)
@@ -164,14 +186,14 @@ SlotOf(props, i) == Len(Flat(SubSeq(props, 1, i - 1)))      \* 0-based storage i
 Entry(sh, idx, pr, acc, psh) == [sh |-> sh, idx |-> idx, pr |-> pr, acc |-> acc, psh |-> psh]
 EmptySite == [ent |-> <<>>, mega |-> FALSE]
 
-ProtoShape(o) == IF objs[o].proto = 0 THEN NoShape ELSE shp[objs[o].proto]
+ProtoShape(st, o) == IF st.O[o].proto = 0 THEN NoShape ELSE st.shp[st.O[o].proto]
 
-\* InlineCache::get : first entry whose shape is the receiver's (and, with repair 2, whose recorded
+\* InlineCache::get : first entry whose shape is the receiver's (and, with repair F1, whose recorded
 \* prototype shape is still the prototype's shape)
-Matches(e, o) == e.sh = shp[o] /\ (FixProto /\ e.pr => e.psh = ProtoShape(o))
-MatchIdx(s, o) ==
-  IF sites[s].mega THEN 0
-  ELSE LET M == {i \in 1..Len(sites[s].ent) : Matches(sites[s].ent[i], o)}
+Matches(st, e, o) == e.sh = st.shp[o] /\ (FixProto /\ e.pr => e.psh = ProtoShape(st, o))
+MatchIdx(st, s, o) ==
+  IF st.dead \/ st.sites[s].mega THEN 0
+  ELSE LET M == {i \in 1..Len(st.sites[s].ent) : Matches(st, st.sites[s].ent[i], o)}
        IN IF M = {} THEN 0 ELSE CHOOSE i \in M : \A j \in M : i <= j
 
 \* InlineCache::set
@@ -181,7 +203,10 @@ Push(site, e) ==
        IN IF Len(kept) < PicCapacity THEN [site EXCEPT !.ent = Append(kept, e)]
           ELSE [ent |-> <<>>, mega |-> TRUE]
 
-\* what ordinary_get leaves in the slot: cacheable iff found on the receiver or on its direct prototype
+PushAt(st, s, sl) == IF sl = <<>> THEN st ELSE [st EXCEPT !.sites[s] = Push(@, sl[1])]
+
+\* what ordinary_get / ordinary_try_get leave in the slot: cacheable iff found on the receiver or on its
+\* direct prototype
 GetSlot(O, S, o, k) ==
   LET d == FoundDepth(O, o, k)
   IN IF d = 0 THEN <<Entry(S[o], SlotOf(O[o].props, IdxOf(O[o].props, k)), FALSE, Own(O, o, k).acc, NoShape)>>
@@ -190,8 +215,8 @@ GetSlot(O, S, o, k) ==
             IN <<Entry(S[o], SlotOf(O[h].props, IdxOf(O[h].props, k)), TRUE, Own(O, h, k).acc, S[h])>>
      ELSE <<>>
 
-\* what a successful ordinary_set leaves in the slot (O, S = graph and shapes BEFORE the store except
-\* that the entry is filed under the receiver's shape after it, which is the same in the cacheable cases)
+\* what a successful ordinary_set leaves in the slot (O, S = graph and shapes before the store; the entry is
+\* filed under the receiver's shape after it, which is the same shape in the cacheable cases)
 SetSlot(O, S, o, k) ==
   LET d == FoundDepth(O, o, k)
   IN IF d = 0 THEN <<Entry(S[o], SlotOf(O[o].props, IdxOf(O[o].props, k)), FALSE, Own(O, o, k).acc, NoShape)>>
@@ -201,136 +226,212 @@ SetSlot(O, S, o, k) ==
      ELSE <<>>
 
 -----------------------------------------------------------------------------
-(* hit paths: what the code does with a cached slot in the current state *)
+(* observations *)
 
-Val(x) == [r |-> "val", x |-> x]
-Panic == [r |-> "panic", x |-> 0]
-FnObj == [r |-> "function-object", x |-> 0]
-Wrong == [r |-> "wrong-callee", x |-> 0]
+Obs(r, ok, calls, pan) == [r |-> r, ok |-> ok, calls |-> calls, pan |-> pan]
+DeadObs == Obs(0, TRUE, <<>>, TRUE)
+Call(n, recv, v) == [n |-> n, r |-> recv, v |-> v]
 
+\* ordinary (uncached) outcomes on a graph O
+OrdGet(O, o, k) == Obs(RefGet(O, o, k, o), TRUE, <<>>, FALSE)
+\* global name lookup: ReferenceError (ok = FALSE) when no binding exists
+OrdName(O, o, k) == IF RefHas(O, o, k) THEN OrdGet(O, o, k) ELSE Obs(0, FALSE, <<>>, FALSE)
+OrdSet(O, o, k, v) == LET r == RefSet(O, o, k, v, o) IN [obs |-> Obs(0, r.ok, r.calls, FALSE), O |-> r.O]
+
+\* hit paths: what the code does with a cached slot on graph O
 HitGet(O, o, e, recv) ==
   LET tgt == IF e.pr THEN O[o].proto ELSE o
-  IN IF tgt = 0 THEN Panic
+  IN IF tgt = 0 THEN DeadObs
      ELSE LET st == Flat(O[tgt].props)
-          IN IF e.idx + 1 > Len(st) THEN Panic
+          IN IF e.idx + 1 > Len(st) THEN DeadObs                       \* index out of bounds: panic
              ELSE LET cell == st[e.idx + 1]
-                  IN IF cell.t = "v" THEN Val(cell.x)
-                     ELSE IF cell.x = 0 THEN Val(Undef)
-                     ELSE IF ~e.acc THEN FnObj
-                     ELSE IF cell.t = "g" THEN Val(GetterResult(cell.x, recv)) ELSE Wrong
-
-SetOut(r, O, calls) == [r |-> r, O |-> O, calls |-> calls]
+                  IN IF cell.t = "v" THEN Obs(cell.x, TRUE, <<>>, FALSE)
+                     ELSE IF cell.x = 0 THEN Obs(Undef, TRUE, <<>>, FALSE)
+                     ELSE IF ~e.acc THEN Obs(FnMark, TRUE, <<>>, FALSE)      \* the function itself is the value
+                     ELSE IF cell.t = "g" THEN Obs(GetterResult(cell.x, recv), TRUE, <<>>, FALSE)
+                     ELSE Obs(Undef, TRUE, <<Call(cell.x, recv, Undef)>>, FALSE)   \* a setter called as getter
 
 HitSet(O, o, e, v, recv) ==
   LET tgt == IF e.pr THEN O[o].proto ELSE o
-  IN IF tgt = 0 THEN SetOut("panic", O, <<>>)
+      dead == [obs |-> DeadObs, O |-> O, corrupt |-> FALSE]
+  IN IF tgt = 0 THEN dead
      ELSE LET st == Flat(O[tgt].props)
               at == IF e.acc THEN e.idx + 2 ELSE e.idx + 1
-          IN IF at > Len(st) THEN SetOut("panic", O, <<>>)
+          IN IF at > Len(st) THEN dead
              ELSE LET cell == st[at]
                   IN IF e.acc THEN
-                       IF cell.t = "v" \/ cell.x = 0
-                         THEN SetOut(IF FixSetter THEN "TypeError" ELSE "ok", O, <<>>)   \* nothing is called
-                       ELSE IF cell.t = "s" THEN SetOut("ok", O, <<[n |-> cell.x, r |-> recv, v |-> v]>>)
-                       ELSE SetOut("wrong-callee", O, <<>>)
+                       IF cell.t = "v" \/ cell.x = 0                    \* nothing callable in the cell
+                         THEN [obs |-> Obs(0, ~FixSetter, <<>>, FALSE), O |-> O, corrupt |-> FALSE]
+                       ELSE IF cell.t = "s" THEN [obs |-> Obs(0, TRUE, <<Call(cell.x, recv, v)>>, FALSE), O |-> O, corrupt |-> FALSE]
+                       ELSE [obs |-> Obs(0, TRUE, <<>>, FALSE), O |-> O, corrupt |-> FALSE]   \* a getter called as setter
                      ELSE IF cell.t = "v" THEN
-                            SetOut("ok", [O EXCEPT ![tgt].props[IdxOf(O[tgt].props, cell.i)].v = v], <<>>)
-                          ELSE SetOut("clobbers-accessor", O, <<>>)
+                            [obs |-> Obs(0, TRUE, <<>>, FALSE),
+                             O |-> [O EXCEPT ![tgt].props[IdxOf(O[tgt].props, cell.i)].v = v], corrupt |-> FALSE]
+                          ELSE [obs |-> Obs(0, TRUE, <<>>, FALSE), O |-> O, corrupt |-> TRUE]   \* would clobber an accessor cell
 
-RefSetOut(O, o, k, v) ==
-  LET r == RefSet(O, o, k, v, o) IN SetOut(IF r.ok THEN "ok" ELSE "TypeError", r.O, r.calls)
+\* Which flaw explains a hit whose outcome differs from the ordinary outcome in the same state
+HitFlaw(st, o, e, k, fresh) ==
+  IF fresh # <<>> /\ fresh[1].idx = e.idx /\ fresh[1].pr = e.pr /\ fresh[1].acc = e.acc
+    THEN (IF e.acc THEN "F3" ELSE "F2")        \* the entry still describes the layout: attribute-level staleness
+  ELSE IF e.pr /\ ~Has(st.O, o, k) THEN "F1"   \* the prototype's layout changed under the entry
+  ELSE "F2"                                    \* the receiver's unique shape changed in place
 
-\* THE PROPERTY on the mechanism: in every reachable state, for every site and receiver, if the cache
-\* would hit then the hit path yields what the uncached reference operation yields.
+\* THE PROPERTY on the mechanism: in every reachable state, for every site and receiver, if the cache would
+\* hit, the hit path does what the uncached operation would do in the same state.
 TransparentAt(s, o) ==
-  LET i == MatchIdx(s, o)
+  LET i == MatchIdx(cst, s, o)
   IN i # 0 =>
-       LET e == sites[s].ent[i]
-       IN IF s[1] = "G" THEN HitGet(objs, o, e, o) = Val(RefGet(objs, o, s[2], o))
-          ELSE HitSet(objs, o, e, 7, o) = RefSetOut(objs, o, s[2], 7)
+       LET e == cst.sites[s].ent[i]
+       IN CASE s[1] = "G" -> HitGet(cst.O, o, e, o) = OrdGet(cst.O, o, s[2])
+            [] s[1] = "N" -> HitGet(cst.O, o, e, o) = OrdName(cst.O, o, s[2])
+            [] s[1] = "S" -> LET h == HitSet(cst.O, o, e, 7, o)
+                                 r == OrdSet(cst.O, o, s[2], 7)
+                             IN ~h.corrupt /\ h.obs = r.obs /\ h.O = r.O
 
 Transparent == \A s \in SiteIds : \A o \in Objs : TransparentAt(s, o)
 
 -----------------------------------------------------------------------------
-(* actions: one per code path *)
+(* actions: one per code path of the cached engine; objs and ust follow along *)
 
-Obs(r, ok, calls) == [r |-> r, ok |-> ok, calls |-> calls]
-Rec(op, o, k, d, p, v, e, hit) == [op |-> op, o |-> o, k |-> k, d |-> d, p |-> p, v |-> v, e |-> e, hit |-> hit]
+Rec(op, o, k, d, p, v, e, ce, ue, hit, tag) ==
+  [op |-> op, o |-> o, k |-> k, d |-> d, p |-> p, v |-> v, e |-> e, ce |-> ce, ue |-> ue, hit |-> hit, tag |-> tag]
 
-\* get_by_name, cache hit: no state change
-GetHit(k, o) ==
-  /\ MatchIdx(<<"G", k>>, o) # 0
-  /\ log' = Append(log, Rec("G", o, k, "-", 0, 0, Obs(RefGet(objs, o, k, o), TRUE, <<>>), TRUE))
-  /\ UNCHANGED <<objs, uq, shp, nextU, sites>>
+Kill(st, obs) == IF obs.pan THEN [st EXCEPT !.dead = TRUE] ELSE st
 
-\* get_by_name, miss: __get__ then cache the slot if cacheable
-GetMiss(k, o) ==
-  /\ MatchIdx(<<"G", k>>, o) = 0
-  /\ LET sl == GetSlot(objs, shp, o, k)
-     IN sites' = IF sl = <<>> THEN sites ELSE [sites EXCEPT ![<<"G", k>>] = Push(@, sl[1])]
-  /\ log' = Append(log, Rec("G", o, k, "-", 0, 0, Obs(RefGet(objs, o, k, o), TRUE, <<>>), FALSE))
-  /\ UNCHANGED <<objs, uq, shp, nextU>>
+\* get_by_name / GetNameGlobal, cache hit
+ReadHit(kind, k, o) ==
+  LET s == <<kind, k>>
+      i == MatchIdx(cst, s, o)
+      Ord(O) == IF kind = "N" THEN OrdName(O, o, k) ELSE OrdGet(O, o, k)
+  IN /\ i # 0
+     /\ LET e == cst.sites[s].ent[i]
+            h == HitGet(cst.O, o, e, o)
+            tag == IF h = Ord(cst.O) THEN "" ELSE HitFlaw(cst, o, e, k, GetSlot(cst.O, cst.shp, o, k))
+        IN /\ cst' = Kill(cst, h)
+           /\ log' = Append(log, Rec(kind, o, k, "-", 0, 0, Ord(objs), h, Ord(ust.O), TRUE, tag))
+     /\ UNCHANGED <<objs, uq, glob, ust>>
 
-\* set_by_name, cache hit: the store happens (by the reference semantics), the cache is not touched
+\* get_by_name / GetNameGlobal, miss: __get__ / __try_get__, then cache the slot if cacheable
+ReadMiss(kind, k, o) ==
+  LET s == <<kind, k>>
+      Ord(O) == IF kind = "N" THEN OrdName(O, o, k) ELSE OrdGet(O, o, k)
+  IN /\ MatchIdx(cst, s, o) = 0
+     /\ cst' = IF cst.dead THEN cst ELSE PushAt(cst, s, GetSlot(cst.O, cst.shp, o, k))
+     /\ log' = Append(log, Rec(kind, o, k, "-", 0, 0, Ord(objs), IF cst.dead THEN DeadObs ELSE Ord(cst.O),
+                               Ord(ust.O), FALSE, ""))
+     /\ UNCHANGED <<objs, uq, glob, ust>>
+
+GetHit(k, o) == ReadHit("G", k, o)
+GetMiss(k, o) == ReadMiss("G", k, o)
+NameHit(k, o) == ReadHit("N", k, o)
+NameMiss(k, o) == ReadMiss("N", k, o)
+
+\* set_by_name, cache hit: the cached engine stores through the slot; reference and uncached engine do [[Set]]
 SetHit(k, o, v) ==
-  /\ MatchIdx(<<"S", k>>, o) # 0
-  /\ LET r == RefSet(objs, o, k, v, o)
-     IN /\ objs' = r.O
-        /\ UpdateShapes(r.O)
-        /\ log' = Append(log, Rec("S", o, k, "-", 0, v, Obs(0, r.ok, r.calls), TRUE))
-  /\ UNCHANGED <<uq, sites>>
+  LET s == <<"S", k>>
+      i == MatchIdx(cst, s, o)
+      r == OrdSet(objs, o, k, v)
+      ru == OrdSet(ust.O, o, k, v)
+  IN /\ i # 0
+     /\ LET e == cst.sites[s].ent[i]
+            h == HitSet(cst.O, o, e, v, o)
+            rc == OrdSet(cst.O, o, k, v)
+            tag == IF h.obs = rc.obs /\ h.O = rc.O THEN ""
+                   ELSE HitFlaw(cst, o, e, k, IF rc.obs.ok THEN SetSlot(cst.O, cst.shp, o, k) ELSE <<>>)
+        IN /\ cst' = Kill([cst EXCEPT !.O = h.O], h.obs)
+           /\ log' = Append(log, Rec("S", o, k, "-", 0, v, r.obs, h.obs, ru.obs, TRUE,
+                                     IF tag # "" THEN tag ELSE IF LosesAttrs(ust, ru.O) THEN "F4" ELSE ""))
+     /\ objs' = r.O
+     /\ ust' = Reshape(ust, ru.O)
+     /\ UNCHANGED <<uq, glob>>
 
 \* set_by_name, miss: __set__, then cache if it succeeded and the slot is cacheable
 SetMiss(k, o, v) ==
-  /\ MatchIdx(<<"S", k>>, o) = 0
-  /\ LET r == RefSet(objs, o, k, v, o)
-         sl == IF r.ok THEN SetSlot(objs, shp, o, k) ELSE <<>>
-     IN /\ objs' = r.O
-        /\ UpdateShapes(r.O)
-        /\ sites' = IF sl = <<>> THEN sites ELSE [sites EXCEPT ![<<"S", k>>] = Push(@, sl[1])]
-        /\ log' = Append(log, Rec("S", o, k, "-", 0, v, Obs(0, r.ok, r.calls), FALSE))
-  /\ UNCHANGED uq
+  LET s == <<"S", k>>
+      r == OrdSet(objs, o, k, v)
+      ru == OrdSet(ust.O, o, k, v)
+      rc == OrdSet(cst.O, o, k, v)
+  IN /\ MatchIdx(cst, s, o) = 0
+     /\ cst' = IF cst.dead THEN cst
+               ELSE PushAt(Reshape(cst, rc.O), s, IF rc.obs.ok THEN SetSlot(cst.O, cst.shp, o, k) ELSE <<>>)
+     /\ log' = Append(log, Rec("S", o, k, "-", 0, v, r.obs, IF cst.dead THEN DeadObs ELSE rc.obs, ru.obs, FALSE,
+                               IF LosesAttrs(ust, ru.O) \/ (~cst.dead /\ LosesAttrs(cst, rc.O)) THEN "F4" ELSE ""))
+     /\ objs' = r.O
+     /\ ust' = Reshape(ust, ru.O)
+     /\ UNCHANGED <<uq, glob>>
 
-Mutate(op, o, k, d, p, r) ==
-  /\ objs' = r.O
-  /\ UpdateShapes(r.O)
-  /\ log' = Append(log, Rec(op, o, k, d, p, 0, Obs(0, r.ok, <<>>), FALSE))
-  /\ UNCHANGED <<uq, sites>>
+\* mutations never touch the caches: the same ordinary operation on each graph
+Mutate(op, o, k, d, p, Apply(_)) ==
+  LET r == Apply(objs)
+      ru == Apply(ust.O)
+      rc == Apply(cst.O)
+  IN /\ objs' = r.O
+     /\ ust' = Reshape(ust, ru.O)
+     /\ cst' = IF cst.dead THEN cst ELSE Reshape(cst, rc.O)
+     /\ log' = Append(log, Rec(op, o, k, d, p, 0, Obs(0, r.ok, <<>>, FALSE),
+                               IF cst.dead THEN DeadObs ELSE Obs(0, rc.ok, <<>>, FALSE), Obs(0, ru.ok, <<>>, FALSE), FALSE,
+                               IF LosesAttrs(ust, ru.O) \/ (~cst.dead /\ LosesAttrs(cst, rc.O)) THEN "F4" ELSE ""))
+     /\ UNCHANGED <<uq, glob>>
 
-Define(o, dk, D) == Mutate("D", o, D.k, dk, 0, RefDefine(objs, o, D))
-Delete(o, k) == Mutate("X", o, k, "-", 0, RefDelete(objs, o, k))
-SetProto(o, p) == Mutate("P", o, "-", "-", p, RefSetProto(objs, o, p))
-PreventExt(o) == Mutate("E", o, "-", "-", 0, DefResult(TRUE, RefPreventExt(objs, o)))
-Freeze(o) == Mutate("F", o, "-", "-", 0, DefResult(TRUE, RefFreeze(objs, o)))
+Define(o, dk, D) == Mutate("D", o, D.k, dk, 0, LAMBDA O : RefDefine(O, o, D))
+Delete(o, k) == Mutate("X", o, k, "-", 0, LAMBDA O : RefDelete(O, o, k))
+SetProto(o, p) == Mutate("P", o, "-", "-", p, LAMBDA O : RefSetProto(O, o, p))
+PreventExt(o) == Mutate("E", o, "-", "-", 0, LAMBDA O : DefResult(TRUE, RefPreventExt(O, o)))
+Freeze(o) == Mutate("F", o, "-", "-", 0, LAMBDA O : DefResult(TRUE, RefFreeze(O, o)))
 
-InitWith(U) ==
-  /\ objs = [o \in Objs |-> EmptyObj]
-  /\ uq = U
-  /\ shp = [o \in Objs |-> IF U[o] THEN UniqueShape(o) ELSE SharedShape(<<Pro(0)>>)]
-  /\ nextU = N + 1
-  /\ sites = [s \in SiteIds |-> EmptySite]
-  /\ log = <<>>
+\* the site is warmed with n receivers of n unrelated shapes (objects outside the model)
+Foreign(i) == [u |-> 0, path |-> <<[t |-> "foreign", k |-> "", a |-> NoAtt, p |-> i]>>]
+RECURSIVE PushForeign(_, _, _)
+PushForeign(site, n, acc) == IF n = 0 THEN site ELSE PushForeign(Push(site, Entry(Foreign(n), 0, FALSE, acc, NoShape)), n - 1, acc)
+Warm(kind, k, n) ==
+  /\ cst' = IF cst.dead THEN cst ELSE [cst EXCEPT !.sites[<<kind, k>>] = PushForeign(@, n, FALSE)]
+  /\ log' = Append(log, Rec("W", n, k, kind, 0, 0, Obs(0, TRUE, <<>>, FALSE),
+                            IF cst.dead THEN DeadObs ELSE Obs(0, TRUE, <<>>, FALSE), Obs(0, TRUE, <<>>, FALSE), FALSE, ""))
+  /\ UNCHANGED <<objs, uq, glob, ust>>
+
+InitWith(U, g) ==
+  LET O0 == [o \in Objs |-> EmptyObj]
+      S0 == [o \in Objs |-> IF U[o] THEN UniqueShape(o) ELSE SharedShape(<<Pro(0)>>)]
+      st0 == [O |-> O0, shp |-> S0, nextU |-> N + 1, sites |-> [s \in SiteIds |-> EmptySite], dead |-> FALSE]
+  IN /\ objs = O0
+     /\ uq = U
+     /\ glob = g
+     /\ cst = st0
+     /\ ust = st0
+     /\ log = <<>>
 
 -----------------------------------------------------------------------------
-(* invariants of the mechanism model and of the reference state *)
+(* invariants *)
 
 TypeOK ==
-  /\ WellFormed(objs)
-  /\ \A s \in SiteIds : Len(sites[s].ent) <= PicCapacity /\ (sites[s].mega => sites[s].ent = <<>>)
-  /\ \A o \in Objs : uq[o] = (shp[o].u # 0)
+  /\ WellFormed(objs) /\ WellFormed(cst.O) /\ WellFormed(ust.O)
+  /\ \A s \in SiteIds : Len(cst.sites[s].ent) <= PicCapacity /\ (cst.sites[s].mega => cst.sites[s].ent = <<>>)
+  /\ \A o \in Objs : uq[o] = (cst.shp[o].u # 0)
+  /\ glob # 0 => uq[glob]
 
-\* a shared shape denotes exactly the keys, order, attributes and prototype of the object that has it
-\* (the attributes of a property live in the shape, not in the object).  Refuted on the pinned design
-\* (FixRollback = FALSE): rollback_before forgets attribute changes of properties other than the last.
+\* a cached store never lands in a cell that does not hold a data value
+NoClobber ==
+  \A k \in Keys : \A o \in Objs :
+    LET i == MatchIdx(cst, <<"S", k>>, o)
+    IN i # 0 => ~HitSet(cst.O, o, cst.sites[<<"S", k>>].ent[i], 7, o).corrupt
+
+\* a shared shape denotes exactly the keys, order, attributes and prototype of the object that has it.
+\* Stated against the REFERENCE graph: refuted on the pinned design (flaw F4).
 LastProto(path) ==
   LET P == {i \in 1..Len(path) : path[i].t = "p"}
   IN IF P = {} THEN 0 ELSE path[CHOOSE i \in P : \A j \in P : j <= i].p
 ShapeDenotes ==
   \A o \in Objs :
     ~uq[o] =>
-       /\ LastProto(shp[o].path) = objs[o].proto
-       /\ TableAt(shp[o].path) = [i \in 1..Len(objs[o].props) |-> [k |-> objs[o].props[i].k, a |-> Att(objs[o].props[i])]]
+       /\ LastProto(ust.shp[o].path) = objs[o].proto
+       /\ TableAt(ust.shp[o].path) = [i \in 1..Len(objs[o].props) |-> [k |-> objs[o].props[i].k, a |-> Att(objs[o].props[i])]]
 
-\* 6.1.7.3 along every step
+\* the engine's graphs are the reference graph (holds for the repaired design only)
+Refines == (~cst.dead => cst.O = objs) /\ ust.O = objs
+
+\* trace-level statement of C06 on the model: every logged step has equal observations
+TraceEqual == \A i \in 1..Len(log) : log[i].ce = log[i].e /\ log[i].ue = log[i].e
+
+\* 6.1.7.3 along every step of the reference graph
 EsInvariants == [][EsStep(objs, objs')]_vars
 =============================================================================
